@@ -1,8 +1,11 @@
 (* Lemmas about octet strings (ToolBox/Octets.v): xor, byte reversal, little / big endian numbers. *)
-From Coq Require Import Arith NArith List Lia Bool.
+From Coq Require Import Arith ZArith NArith List Lia Bool Zify.
 From BT Require Import Base.Bits2 ToolBox.Octets.
 Import ListNotations.
 Local Open Scope N_scope.
+
+(* lia with N.div / N.modulo by constants *)
+Ltac nlia := zify; Z.to_euclidean_division_equations; lia.
 
 (* ---------------------------------------------------------------- bytes *)
 Lemma lxor_byte a b : a < 256 -> b < 256 -> N.lxor a b < 256.
@@ -115,17 +118,15 @@ Proof. revert v. induction n; intros; cbn; [reflexivity|]. rewrite IHn. reflexiv
 Lemma N_to_le_bytes n v : bytes (N_to_le n v).
 Proof.
   revert v. induction n; intros; cbn; constructor; [|apply IHn].
-  unfold is_byte. apply N.mod_lt. lia.
+  unfold is_byte. nlia.
 Qed.
 
 Lemma N_to_le_le_to_N l : bytes l -> N_to_le (length l) (le_to_N l) = l.
 Proof.
   induction 1 as [|x l Hx Hl IH]; cbn [le_to_N length N_to_le]; [reflexivity|].
   unfold is_byte in Hx.
-  replace ((x + 256 * le_to_N l) mod 256) with x.
-  2:{ rewrite N.add_comm, N.mul_comm, N.mod_add by lia. symmetry. apply N.mod_small. assumption. }
-  replace ((x + 256 * le_to_N l) / 256) with (le_to_N l).
-  2:{ rewrite N.add_comm, N.mul_comm, N.div_add_l by lia. rewrite (N.div_small x) by assumption. lia. }
+  replace ((x + 256 * le_to_N l) mod 256) with x by nlia.
+  replace ((x + 256 * le_to_N l) / 256) with (le_to_N l) by nlia.
   rewrite IH. reflexivity.
 Qed.
 
@@ -166,10 +167,12 @@ Proof.
     apply N.pow_le_mono_r; lia.
   - rewrite <- (firstn_skipn n l) at 2. rewrite le_to_N_app.
     rewrite firstn_length_le by lia.
-    rewrite N.add_comm, N.mul_comm, N.mod_add by (apply N.pow_nonzero; lia).
-    symmetry. apply N.mod_small.
     pose proof (le_to_N_bound (firstn n l) (bytes_firstn n l Hl)) as B.
-    rewrite firstn_length_le in B by lia. exact B.
+    rewrite firstn_length_le in B by lia.
+    set (P := 256 ^ N.of_nat n) in *. set (A := le_to_N (firstn n l)) in *.
+    set (C := le_to_N (skipn n l)).
+    rewrite (N.mul_comm P C), N.mod_add by (unfold P; apply N.pow_nonzero; lia).
+    symmetry. apply N.mod_small. exact B.
 Qed.
 
 Lemma N_to_le_app a b v :
